@@ -61,10 +61,58 @@ def smaller(t):
             yield ("l", w[0])
         elif w in ("ei", "eu"):
             yield ("l", "i")
+        elif len(w) >= 4 and w[2] == "x":       # matrix: drop the modifier, then a vector, then the scalar
+            if len(w) == 5:
+                yield ("l", w[:4])
+            yield ("l", w[0] + w[1])
+            yield ("l", w[0])
+        elif w.startswith("?"):
+            yield ("l", "f")
+
+
+def shrink_types(tys):
+    """structurally smaller variants of one entry of a `;`-separated type list"""
+    for i, ty in enumerate(tys):
+        try:
+            t, _ = parse(tokens(ty))
+        except Exception:
+            continue
+        for v in smaller(t):
+            yield tys[:i] + [show(v)] + tys[i + 1:]
+
+
+def shrink_prog(f):
+    head, tys, sites = f[1], f[2].split(";"), f[3].split(",")
+    target, mode, style = head.split(":")
+    # plain spelling, Vulkan, no pipeline
+    if style != "0":
+        yield "\t".join([f[0], ":".join([target, mode, "0"]), f[2], f[3]])
+    if mode != "np":
+        yield "\t".join([f[0], ":".join([target, "np", style]), f[2], f[3]])
+    if target != "vk":
+        yield "\t".join([f[0], ":".join(["vk", mode, style]), f[2], f[3]])
+    # fewer sites
+    if len(sites) > 1:
+        for i in range(len(sites)):
+            yield "\t".join([f[0], head, f[2], ",".join(sites[:i] + sites[i + 1:])])
+    # drop a type nobody uses (re-index the sites)
+    used = {int(x.split("@")[1]) for x in sites}
+    for k in range(len(tys)):
+        if k not in used and len(tys) > 1:
+            ns = []
+            for x in sites:
+                a, b = x.split("@")
+                ns.append("%s@%d" % (a, int(b) - (1 if int(b) > k else 0)))
+            yield "\t".join([f[0], head, ";".join(tys[:k] + tys[k + 1:]), ",".join(ns)])
+    for v in shrink_types(tys):
+        yield "\t".join([f[0], head, ";".join(v), f[3]])
 
 
 def shrink(req):
     f = req.split("\t")
+    if f[0] == "C19.prog" and len(f) == 4:
+        yield from shrink_prog(f)
+        return
     if len(f) != 3:
         return
     tys = f[2].split(";")
@@ -73,20 +121,15 @@ def shrink(req):
     if len(tys) > 1:
         for i in range(len(tys)):
             yield "\t".join(f[:2] + [";".join(tys[:i] + tys[i + 1:])])
-    for i, ty in enumerate(tys):
-        try:
-            t, _ = parse(tokens(ty))
-        except Exception:
-            continue
-        for v in smaller(t):
-            if v[0] == "s" and not v[1]:
-                continue
-            yield "\t".join(f[:2] + [";".join(tys[:i] + [show(v)] + tys[i + 1:])])
+    for v in shrink_types(tys):
+        yield "\t".join(f[:2] + [";".join(v)])
 
 
 def nontrivial(req, obs):
     # a struct with at least two members, or nesting / arrays
     f = req.split("\t")
+    if f[0] == "C19.prog":
+        return len(f) == 4 and f[2].count(" ") >= 1
     return len(f) == 3 and (f[2].count(" ") >= 1)
 
 
@@ -121,7 +164,7 @@ def search(ctx):
 
 SPEC = {
     "id": "C19",
-    "gens": ["LayoutTables"],
+    "gens": ["LayoutTables", "LayoutSites"],
     "lean_modules": ["RsslVerif.Thm.C19"],
     "theorems": [T + n for n in [
         "tables_pinned", "checked_sites", "get_matches_spec", "check_sound_agree", "check_sound",
